@@ -35,6 +35,8 @@ PROFILES = {
     'pseudo': dict(pseudo=1.0, history=0.4, twin_exit=0.5, row_budget=10, states_per_region=(2, 2), depth=(2, 3), state_internal=0.0, sm_internal=0.0, regions=(1, 3)),
     'intro': dict(depth=(1, 3), regions=(1, 3), completion=0.3, history=0.5, pseudo=0.6, row_budget=10, states_per_region=(2, 3),
                   state_internal=0.2, sm_internal=0.0, scripts=True, visitable=True, root_history=0.4),
+    'intro_roothist': dict(history_kinds=['always'], depth=(1, 2), regions=(1, 3), completion=0.3, history=0.5, pseudo=0.6, row_budget=10, states_per_region=(2, 3),
+                  state_internal=0.2, sm_internal=0.0, scripts=True, visitable=True, root_history=1.0),
     'common': dict(depth=(1, 3), regions=(1, 3), completion=0.3, history=0.4, pseudo=0.4, row_budget=11, states_per_region=(2, 3),
                    state_internal=0.3, sm_internal=0.0, flags=0.5, blocking=0.25, deferral=0.4, scripts=True),
     'common_smi': dict(smi_conflict=0.7, depth=(1, 3), regions=(1, 3), completion=0.3, history=0.4, pseudo=0.4, row_budget=11, states_per_region=(2, 3),
@@ -62,7 +64,7 @@ PROFILES = {
     'policy_before': dict(action_none=0.4, guard_none=0.4, policy='before', flags=0.7, depth=(1, 3), pseudo=0.3, row_budget=12, state_internal=0.2, sm_internal=0.0, scripts=True),
     'policy_default': dict(action_none=0.4, guard_none=0.4, policy='default', flags=0.7, depth=(1, 3), pseudo=0.3, row_budget=12, state_internal=0.2, sm_internal=0.0, scripts=True),
     'blocking': dict(joint_block=0.6, blocking=1.0, depth=(1, 1), regions=(1, 3), flags=0.5, state_internal=0.0, sm_internal=0.0, completion=0.25, scripts=True),
-    'blocking_joint': dict(joint_block=1.0, both_blocking_kinds=True, blocking=1.0, depth=(1, 1), regions=(2, 3), flags=0.5, state_internal=0.0, sm_internal=0.0, completion=0.25, scripts=True),
+    'blocking_joint': dict(joint_block=1.0, both_blocking_kinds=True, blocking=1.0, depth=(1, 1), regions=(2, 3), states_per_region=(4, 4), row_budget=9, flags=0.5, state_internal=0.0, sm_internal=0.0, completion=0.6, scripts=True),
     'queue': dict(scripts=True, depth=(1, 2), regions=(1, 2), completion=0.2, state_internal=0.2, sm_internal=0.0),
     'defer': dict(deferral=1.0, scripts=True, depth=(1, 1), regions=(1, 3), completion=0.0, state_internal=0.0, sm_internal=0.0),
     'defer_cond': dict(defer_cond=0.7, deferral=1.0, scripts=True, depth=(1, 1), regions=(1, 3), completion=0.0, state_internal=0.0, sm_internal=0.0),
@@ -413,9 +415,40 @@ class Gen:
             other = [s for s in reg[1:] if m['states'][s]['kind'] in ('terminate', 'interrupt') and m['states'][s]['kind'] != kind_b]
             compl = [s for s in reg[1:] if any(rw['src'] == s and rw['ev'] is None for rw in m['table'])]
             rest = [s for s in reg[1:] if m['states'][s]['kind'] == 'simple']
-            pick = other or compl or rest
+            # a region in front of the blocking one rather gets a completion source (its completion work is pending when the
+            # machine becomes blocked), a region behind it rather the other blocking kind
+            pick = (compl or other or rest) if ri < ri_b else (other or compl or rest)
             if pick and (r.random() < 0.85 or self.p.get('both_blocking_kinds')):
                 joint(ri, r.choice(pick))
+        if self.p.get('both_blocking_kinds') and len(events) > 1:
+            # a second joint event: a region in front gets a state with a completion transition, a region behind it blocks
+            e2 = r.choice([x for x in events if x != e])
+            done_ = False
+            for rb in range(len(m['regions']) - 1, 0, -1):
+                blk_b = [s for s in m['regions'][rb] if m['states'][s]['kind'] in ('terminate', 'interrupt')]
+                if not blk_b or done_:
+                    continue
+                for ra in range(rb):
+                    reg = m['regions'][ra]
+                    cand = [(i_, s) for i_, s in enumerate(reg) if 0 < i_ < len(reg) - 1 and m['states'][s]['kind'] == 'simple'
+                            and m['states'][reg[i_ + 1]]['kind'] == 'simple']
+                    if not cand:
+                        continue
+                    i_, s = cand[0]
+                    if not any(rw['src'] == s and rw['ev'] is None for rw in m['table']):
+                        m['table'].append(dict(src=s, ev=None, tgt=reg[i_ + 1], guard=None, actions=self.actions_n(1)))
+                    for (ri, tgt) in ((ra, s), (rb, blk_b[0])):
+                        init = m['regions'][ri][0]
+                        m['table'] = [rw for rw in m['table'] if not (rw['src'] == init and rw['ev'] == e2)]
+                        m['table'].append(dict(src=init, ev=e2, tgt=tgt, guard=None, actions=self.actions()))
+                    done_ = True
+                    break
+        # the transition table is an mpl::vector: keep it within the limit by dropping guarded ordinary rows
+        while len(m['table']) > MAX_ROWS:
+            drop = [k_ for k_, rw in enumerate(m['table']) if rw.get('guard') is not None and rw['ev'] is not None]
+            if not drop:
+                break
+            m['table'].pop(drop[-1])
 
     def ensure_sub_cycles(self, sp):
         """history needs enter/exit cycles: every submachine gets rows entering it on >= 2 distinct events (for shallow
